@@ -751,7 +751,7 @@ def _shifts_group(nlayers):
                   'atomic planes' % nlayers, replay=_replay, timeout_ms=30000)
     def h_(E, L):
         block, info = _extract_range(L, FSF, '__init__', _is_assign_to('rcellwidth'), _is_assign_to('shifts'))
-        E.prove('shifts.block_found[%d]' % nlayers, info['last_line'] - info['first_line'] >= 10 and 'rcell' in info['free_variables'])
+        E.shape('shifts.block_found[%d]' % nlayers, info['last_line'] - info['first_line'] >= 10 and 'rcell' in info['free_variables'])
         mod = L.load(FSF)
         for cutindex in range(3):
             w = E.real('w')
